@@ -394,9 +394,38 @@ def explore_case(
         else:
             rec["native_issues"] = [r.to_json() for r in rep][:3]
             unconfirmed.append(rec)
+    # native fidelity runs: the same body on native dtypes (compiled kernels, no Engine) with concrete small integers.
+    # They validate the object-dtype carrier/stubs against what users get; a native disagreement with the model is a
+    # genuine violation (reported, flagged as found by the fidelity run rather than by the solver).
+    fidelity = 0
+    import zlib
+
+    frng = random.Random(zlib.crc32(json.dumps(case, sort_keys=True, default=str).encode()))
+    for _k in range(2):
+        vals = {a: Fraction(frng.choice([-3, -2, -1, 0, 0, 1, 1, 2, 3, 5])) for a in atoms}
+        try:
+            rep = concrete_run_poisoned(body, case, vals, options)
+        except Exception as e:
+            rep = [Issue("harness-exception", case.get("op", "?"), "%s: %s" % (type(e).__name__, e))]
+        fidelity += 1
+        for r in rep:
+            if r.kind == "harness-exception":
+                continue
+            sig = r.signature()
+            if seen_sig.get(sig):
+                continue
+            seen_sig[sig] = 1
+            rec = r.to_json()
+            rec["signature"] = sig
+            rec["values"] = {a: frac_str(v) for a, v in vals.items()}
+            rec["native_detail"] = r.detail
+            rec["detail"] += " [native fidelity run]"
+            confirmed.append(rec)
     d = {k: ENGINE.stats[k] - q0.get(k, 0) for k in ENGINE.stats}
     return {
         "case": case,
+        "fidelity_runs": fidelity,
+        "assumptions_used": sorted(ENGINE.assumptions_used),
         "paths": summary["paths"],
         "exhausted": summary["exhausted"],
         "aborted": summary["aborted"],
